@@ -90,7 +90,7 @@ def marks_own_parameter(e):
 def oracle(c, case, r):
     e = r["export"]
     desc = case["desc"]
-    own = ":task-marks-own-parameter" if marks_own_parameter(e) else ""
+    own = identgen.SELFMARK if marks_own_parameter(e) and identgen.remarked(desc) else ""
     acts = desc.get("actions", [])
     failed_submit = any(ai < len(acts) and (acts[ai]["a"] == "submit" or (acts[ai]["a"] == "set" and acts[ai]["v"].get("t") == "out"))
                         for ai, _ in (r.get("build_errors") or []))
@@ -128,7 +128,7 @@ def oracle(c, case, r):
             # subject: a rejected submit must change nothing); what a reload recomputes cannot be compared with them
             c.count("identifier-comparison-skipped:failed-submit-in-build")
         elif b != a:
-            cause = ("task-marks-own-parameter" if own else
+            cause = (identgen.SELFMARK[1:] if own else
                      "meta-false" if any(e["nodes"][j["id"]]["meta"] is False for j in r["defs"]) else
                      "init-tasks" if any(e["nodes"][j["id"]]["init"] for j in r["defs"]) else "other")
             c.violation(f"C12:identifier-changed-after-reload:{cause}",
